@@ -169,6 +169,60 @@ def _s4(program, res):
         res.fail_at("C08-S4", em, "emitter-columns", "the unary emitter no longer lists exactly the requested columns")
 
 
+def _s5_declared_order(program, res):
+    """the result's column order is the pipeline's declared order: the last thing each executor does is to lay the columns out by
+    op.column_names (SQL: the top-level select list; Pandas: a final selection; Polars: every step ends in select(columns_produced), S2)"""
+    # SQL
+    ts = program.method("sql_model", "SQLModel", "to_sql", inherited=False)
+    res.analysed(ts)
+    ops_param = [p for p in ts.params() if p != "self"][0]
+    tops = [c for c in ast.walk(ts.node) if isinstance(c, ast.Call) and isinstance(c.func, ast.Attribute) and c.func.attr == "to_sql_str_list"
+            and any(kw.arg == "force_sql" and isinstance(kw.value, ast.Constant) and kw.value.value is True for kw in c.keywords)]
+    if not tops:
+        raise AnalysisError("SQLModel.to_sql: top-level to_sql_str_list(force_sql=True) calls not found")
+    g = cfgmod.build(ts.node)
+    d = depsmod.Deps(g, ts.params())
+    for c in tops:
+        kw = [k for k in c.keywords if k.arg == "columns"]
+        ok = False
+        if kw:
+            roots = d.roots_at(g.containing_node(c), kw[0].value)
+            ok = any(r == f"{ops_param}.column_names" or r.startswith(f"{ops_param}.column_names") for r in roots)
+        if ok:
+            res.ok("C08-S5", f"SQL: top-level `{unparse(c.func)}` lists the columns of {ops_param}.column_names, in that order")
+        else:
+            res.fail_at("C08-S5", ts, f"top-level-select-order-not-declared:{unparse(c.func.value)}",
+                        f"the outermost SELECT (`{unparse(c.func)}`) is emitted without `columns=` from {ops_param}.column_names, so it lists the columns in the order the "
+                        f"last step happened to build its terms: project puts aggregates before group keys (declared z,y,s comes back s,z,y), rename_columns moves the renamed "
+                        f"column to the front — another order than the same pipeline has on Pandas / Polars", c)
+    # Pandas
+    ev = program.method("pandas_base", "PandasModelBase", "eval", inherited=False)
+    res.analysed(ev)
+    op_param = [p for p in ev.params() if p != "self"][0]
+    g2 = cfgmod.build(ev.node)
+    d2 = depsmod.Deps(g2, ev.params())
+    laid_out = False
+    for st in ast.walk(ev.node):
+        if isinstance(st, ast.Assign) and isinstance(st.value, (ast.Subscript, ast.Call)):
+            v = st.value
+            sel = v.slice if isinstance(v, ast.Subscript) else (v.args[0] if (isinstance(v.func, ast.Attribute) and v.func.attr in ("reindex", "select", "loc") and v.args) else
+                                                                next((k.value for k in getattr(v, "keywords", []) if k.arg == "columns"), None))
+            if sel is None:
+                continue
+            roots = d2.roots_at(g2.containing_node(st), sel)
+            if any(r.startswith(f"{op_param}.column_names") for r in roots):
+                # and this value reaches a return
+                tgt = unparse(st.targets[0])
+                if any(isinstance(r.stmt.value, ast.Name) and r.stmt.value.id == tgt for r in g2.returns()):
+                    laid_out = True
+    if laid_out:
+        res.ok("C08-S5", f"Pandas: eval lays the result out by {op_param}.column_names before returning it")
+    else:
+        res.fail_at("C08-S5", ev, "pandas-result-order-not-declared",
+                    "PandasModelBase.eval returns the last step's frame as it is: steps that special-case empty inputs (project, concat_rows, extend) or overwrite several columns "
+                    "return another column order than the declared one (project on an empty input: declared z,y,s, returned s,y,z)")
+
+
 def run(program, res, tier):
     res.rule("C08-S1", "Pandas: every scratch column written into a returned frame is removed on every path")
     res.rule("C08-S2", "Polars: temporary columns are selected away; steps end in select(op.columns_produced())")
@@ -178,3 +232,5 @@ def run(program, res, tier):
     _s2(program, res)
     c16.twin_cleanup_rule(program, res, rule="C08-S3")
     _s4(program, res)
+    res.rule("C08-S5", "each executor lays the final result out in the declared column order")
+    _s5_declared_order(program, res)
